@@ -310,7 +310,17 @@ func (g *mdGen) document() string {
 		case k < 2:
 			lvl := r.Range(1, 6)
 			start := len(g.toks)
-			sb.WriteString(strings.Repeat("#", lvl) + " " + g.inline(fmt.Sprintf("heading%d", lvl), 3) + "\n\n")
+			nseq := len(g.seqs)
+			htext := g.inline(fmt.Sprintf("heading%d", lvl), 3)
+			if len(g.seqs) == nseq+1 && r.Chance(1, 4) {
+				// heading text that ends in a brace group: plain text in the Markdown this library reads (there is no attribute syntax)
+				tail := []string{"struct{}", "{}", "{#intro}", "{.note}", "{k=v}", "obj {#a .b}", "{ }", "set {1, 2}"}[r.Intn(8)]
+				htext += " " + tail
+				g.seqs[nseq].visible += " " + tail
+				g.decor = append(g.decor, tail)
+				g.use("heading-ending-in-braces")
+			}
+			sb.WriteString(strings.Repeat("#", lvl) + " " + htext + "\n\n")
 			for _, t := range g.toks[start:] {
 				g.heads[t.tok] = lvl
 			}
@@ -369,7 +379,11 @@ func (g *mdGen) document() string {
 					g.use("fenced-code-with-indented-fence")
 				}
 				fence := []string{"```", "~~~"}[r.Intn(2)]
-				info := []string{"go", ""}[r.Intn(2)]
+				// the info string names a language for highlighting, whatever it says the block is code
+				info := []string{"go", "", "go", "", "math", "Math", "latex", "tex", "mermaid", "text", "math display", "go {.numberLines}", "diff"}[r.Intn(13)]
+				if info != "" && info != "go" {
+					g.use("fence-info:" + strings.Fields(strings.ToLower(info))[0])
+				}
 				for i := range bodies {
 					raw := leads[i] + bodies[i]
 					if fi > 0 && r.Bool() {
